@@ -74,9 +74,9 @@ def run(ctx):
             ctx.touch(g)
             # ind = self.map.len()
             lens = [e for bi, t, e in q.calls_named(g, 'len') if 'map' in facts.show(e[2][0])]
-            used = False
-            for bi, st, fields in q.struct_sites(g, 'VacantEntry'):
-                used = bool(lens) and strip_refs(fields.get('ind', ('other',))) == lens[0]
+            sites_ = list(q.struct_sites(g, 'VacantEntry'))
+            # every way of handing out a vacant entry (there may be one per kind of key) uses the number of keys so far
+            used = bool(sites_) and bool(lens) and all(any(strip_refs(fields.get('ind', ('other',))) == l_ for l_ in lens) for bi, st, fields in sites_)
             ctx.verdict(used, rule, '%s:%s:index-is-length' % (rule, g.j.get('impl_self').split('<')[0]), 'a new key gets index = number of keys inserted before it', g.where(0), 'VacantEntry.ind = self.map.len(): %s' % used)
         if name.endswith('::into_iter') and g.j.get('impl_self', '').startswith('compact::') and 'Builder' in g.j.get('impl_self', ''):
             ctx.touch(g)
